@@ -23,6 +23,7 @@ type Solver struct {
 	levels  [][]int     // ids defined per level
 	stack   [][]*Term   // mirror of assertion stack (for restart)
 	timeout time.Duration
+	fpSolver string // solver of the one-shot float queries: "" (z3 4.8.12), "z3new", "cvc5"
 	lazyFP   bool // float constraints are kept off the incremental solver: feasibility probes over-approximate (ignore them), verdicts are decided one-shot on the full path condition
 	arithMemo map[int]bool
 	feasMode bool // the next one-shot query is a feasibility probe: short time limit, unknown keeps the path
@@ -662,7 +663,7 @@ func (s *Solver) oneShot(vals []*Term) (string, []uint64) {
 		fmt.Fprintf(s.logf, "; ---- one-shot ----\n%s; ---- end ----\n", sb.String())
 	}
 	bin := "/usr/bin/z3"
-	if s.kind == "z3new" {
+	if s.kind == "z3new" || s.fpSolver == "z3new" {
 		bin = "z3-new"
 	}
 	secs := int(s.timeout/time.Second) + 1
@@ -671,6 +672,10 @@ func (s *Solver) oneShot(vals []*Term) (string, []uint64) {
 	}
 	cmd := exec.Command(bin, "-in", "-T:"+strconv.Itoa(secs))
 	cmd.Stdin = strings.NewReader(sb.String())
+	if s.fpSolver == "cvc5" {
+		cmd = exec.Command("cvc5", "--lang=smt2", "--tlimit="+strconv.Itoa(secs*1000))
+		cmd.Stdin = strings.NewReader("(set-logic ALL)\n" + sb.String())
+	}
 	out, _ := cmd.Output()
 	s.Time += time.Since(t0)
 	text := string(out)
